@@ -3,3 +3,4 @@ import SimVerif.Model.Nms
 import SimVerif.Lemmas.Nms
 import SimVerif.Props.C14
 import SimVerif.Props.C20
+import SimVerif.Props.C17
